@@ -44,6 +44,18 @@ def family_op(ctx, rng, norb, fam, FermionOperator, hermitian_conjugated):
             c = U.gint(rng, zero_p=0) or 1
             for s in (0, 1):
                 add([(2 * i + s, 1), (2 * j + s, 0)], c)
+    elif fam == "nearly-restricted":
+        # one-body operator whose beta block differs from the alpha block by a relative 1e-6 .. 1e-5: not the same
+        # operator as the spin-restricted one
+        eps = rng.choice([1e-6, 4e-6, 9e-6])
+        for _ in range(rng.randint(2, 4)):
+            i, j = rng.randrange(norb), rng.randrange(norb)
+            c = float((U.gint(rng, zero_p=0) or 1).real) or 1.0
+            add([(2 * i, 1), (2 * j, 0)], c)
+            add([(2 * i + 1, 1), (2 * j + 1, 0)], c * (1 + eps))
+        if norb > 1:
+            add([(0, 1), (2, 0)], 1.0)
+            add([(1, 1), (3, 0)], 1.0 + eps)
     elif fam == "sso1":
         for _ in range(rng.randint(2, 4)):
             i, j, s = rng.randrange(norb), rng.randrange(norb), rng.randrange(2)
@@ -96,7 +108,7 @@ def run(ctx):
                                   sso_hamiltonian, gso_hamiltonian, general_hamiltonian, sparse_hamiltonian)
     d, rng = ctx.driver, ctx.rng
     quick = ctx.tier == "quick"
-    fams = ["diagonal", "restricted1", "sso1", "gso1", "diagcoulomb", "mixed", "mixed", "few"]
+    fams = ["diagonal", "restricted1", "sso1", "gso1", "diagcoulomb", "mixed", "mixed", "few", "nearly-restricted"]
     ncases = 96 if quick else 6000
     for case in range(ncases):
         fam = fams[case % len(fams)]
